@@ -324,7 +324,11 @@ theorem interp_mono (reg : Registry) : ∀ f : Nat,
           · generalize writeTree reg f nodes { c := { s.c with incD := s.c.incD + 1 }, w := {} } = r
             unfold inclFinish
             cases r.err with
-            | some e => exact Frz.refl _
+            | some e =>
+              simp only
+              split
+              · exact Frz.refl _
+              · exact write_mono r.st.w.out ({ s with c := { r.st.c with incD := r.st.c.incD - 1 } } : St)
             | none =>
               simp only
               exact write_mono r.st.w.out ({ s with c := { r.st.c with incD := r.st.c.incD - 1 } } : St)
